@@ -976,6 +976,13 @@ func (app *Haqq) setPostHandler() {
 // of the new block for every registered module. If there is a registered fork at the current height,
 // BeginBlocker will schedule the upgrade plan and perform the state migration (if any).
 func (app *Haqq) BeginBlocker(ctx sdk.Context, req abci.RequestBeginBlock) abci.ResponseBeginBlock {
+	// The gas meter of this context is the one every transaction of the block starts on, and a
+	// transaction that panics before the ante handler has given it a meter of its own reports that
+	// meter's consumption as its gas used. Begin-block work includes node-local one-off reads after
+	// a start (x/upgrade's downgrade check), so it must not be charged there: a restarted node
+	// would report a different gas used for such a transaction than a node that never stopped.
+	ctx = ctx.WithGasMeter(sdk.NewInfiniteGasMeter())
+
 	// Perform any scheduled forks before executing the modules logic
 	app.ScheduleForkUpgrade(ctx)
 	return app.mm.BeginBlock(ctx, req)
